@@ -178,7 +178,7 @@ def phase_emitters(run, repo):
     ]
     for qual, kw, qty in cases:
         ci = repo.cls(qual)
-        ph = fr.apply(ci, [], dict(kw, species=ListV(list(sp))), None)
+        ph = fr.apply(ci, [], dict(kw, species=ListV(list(sp)), note=text(I, 'note', 9)), None)
         names = [s_.attrs['name'] for s_ in sp]
         all_el = []
         for s_ in sp:
@@ -198,6 +198,9 @@ def phase_emitters(run, repo):
                       sample='%s.to_omkm_yaml lists exactly its species' % cn)
             run.check(got_el == sorted(all_el), 'DATAFLOW.phase', cn + '.to_omkm_yaml', 'elements',
                       'the phase lists elements %s, its species contain %s' % (got_el, sorted(all_el)), owner.module, fn)
+            run.check(I.plain(d.d.get('name')) == kw['name'], 'DATAFLOW.phase', cn + '.to_omkm_yaml', 'name',
+                      'the phase entry is named %s, the phase is called %s (its note is a different text)'
+                      % (show(d.d.get('name'), 40), show(kw['name'], 40)), owner.module, fn)
             if qty == 'site_density':
                 sg = I.seg(d.d.get('site-density')) if isinstance(d.d.get('site-density'), (str, SegStr)) else None
                 val = num_fields(I, sg)[0] if sg is not None and num_fields(I, sg) else None
@@ -222,6 +225,9 @@ def phase_emitters(run, repo):
         run.check(all(texts.count(n_) == 1 for n_ in names) and all(texts.count(e_) == 1 for e_ in all_el),
                   'DATAFLOW.phase', cn + '.to_cti', 'species and elements once',
                   'species/elements in the CTI phase entry: %s' % [str(t).strip(Z) for t in texts], owner.module, fn)
+        run.check(texts.count(kw['name']) == 1 and texts.index(kw['name']) == 0, 'DATAFLOW.phase', cn + '.to_cti',
+                  'name', 'the CTI phase entry must open with the name of the phase; its text fields are %s'
+                  % [str(t).strip(Z) for t in texts], owner.module, fn)
         if qty:
             nums = num_fields(I, out)
             want = sden * D.sym('U<cm2>') if qty == 'site_density' else rho * D.sym('U<cm3>')
@@ -230,6 +236,63 @@ def phase_emitters(run, repo):
                       '%s written as %s, expected %s (mol/cm2 -> mol/m2, g/cm3 -> g/m3)'
                       % (qty, show(ListV(nums), 100), show(want, 100)), owner.module, fn,
                       sample='%s.to_cti: %s converted to the unit system' % (cn, qty))
+    # a phase with so many species that the list does not fit on one line of the CTI entry (any mechanism of realistic
+    # size): every species is still named once, in order, names separated by white space only
+    many = [Obj('msp%d' % k, attrs={'name': text(I, 'msp%d' % k, 5 + (3 * k) % 7),
+                                    'elements': DictV({text(I, 'el%d' % (k % 3), 1 + k % 2, 'alpha'): C(1)}),
+                                    'phase': None}) for k in range(17)]
+    mnames = [s_.attrs['name'] for s_ in many]
+    for qual, kw, qty in cases:
+        ci = repo.cls(qual)
+        cn = qual.split('.')[-1]
+        ph = fr.apply(ci, [], dict(kw, species=ListV(list(many))), None)
+        owner, fn = repo.find_method(ci, 'to_cti')
+        out = I.call_method(ph, 'to_cti', [], {'units': u} if qty else {})
+        if isinstance(out, Raised) or not isinstance(out, (str, SegStr)):
+            run.fail('DATAFLOW.phase', cn + '.to_cti', 'species list longer than a line', 'to_cti gives %s'
+                     % show(out, 80), owner.module, fn)
+            continue
+        segs = I.seg(out).segs
+        pos = [k_ for k_, s_ in enumerate(segs) if s_.kind == 'field' and s_.value in mnames]
+        listed = [segs[k_].value for k_ in pos]
+        between = [''.join(s_.text if s_.kind == 'lit' else '?' for s_ in segs[i_ + 1:j_])
+                   for i_, j_ in zip(pos, pos[1:])]
+        run.check(listed == mnames and all(b_ != '' and b_.strip() == '' for b_ in between), 'DATAFLOW.phase',
+                  cn + '.to_cti', 'species list longer than a line',
+                  'a phase with 17 species (names of 5-11 characters) names %d of them in its CTI entry%s: %s'
+                  % (len(set(listed)), '' if listed == mnames else ' (missing or out of order: %s)'
+                     % [str(n_).strip(Z) for n_ in mnames if listed.count(n_) != 1], show(out, 400).replace(Z, '')),
+                  owner.module, fn, sample='%s.to_cti: 17 species over several lines, each once' % cn)
+    # the phases an interface adjoins, given as phase objects and as names: the entry names each of them (by its name),
+    # and itself by its own name
+    ci = repo.cls('pmutt.omkm.phase.InteractingInterface')
+    owner, fn = repo.find_method(ci, 'to_cti')
+    adj_gas = fr.apply(repo.cls('pmutt.omkm.phase.IdealGas'), [], {'name': text(I, 'adjgas', 3)}, None)
+    adj_bulk = text(I, 'adjbulk', 4)
+    own_name = text(I, 'ownname', 7)
+    ph = fr.apply(ci, [], {'name': own_name, 'site_density': sden, 'species': ListV(list(sp)),
+                           'phases': ListV([adj_gas, adj_bulk])}, None)
+    out = I.call_method(ph, 'to_cti', [], {'units': u})
+    if isinstance(out, Raised) or not isinstance(out, (str, SegStr)):
+        run.fail('DATAFLOW.phase', 'InteractingInterface.to_cti', 'adjacent phases', 'to_cti gives %s' % show(out, 80),
+                 owner.module, fn)
+    else:
+        segs = I.seg(out).segs
+        lit_before = {}
+        acc = ''
+        for s_ in segs:
+            if s_.kind == 'lit':
+                acc += s_.text
+            elif s_.cls != 'num':
+                lit_before.setdefault(s_.value, []).append(acc)
+        slot_of = lambda v_: [b_[b_.rfind('=', 0, len(b_)) - 12:].split('=')[-2].split()[-1].strip('(,') if '=' in b_
+                              else None for b_ in lit_before.get(v_, [])]
+        got = {str(k_).strip(Z): slot_of(k_) for k_ in (own_name, I.plain(get_public(I, adj_gas, 'name')), adj_bulk)}
+        want = {'ownname': ['name'], 'adjgas': ['phases'], 'adjbulk': ['phases']}
+        run.check(got == want, 'DATAFLOW.phase', 'InteractingInterface.to_cti', 'adjacent phases',
+                  'an interface "ownname" adjoining the phase object "adjgas" and the phase named "adjbulk" must carry its '
+                  'own name under name= and the two others under phases=; found %s' % got, owner.module, fn,
+                  sample='InteractingInterface.to_cti: name=own name, phases=names of the adjacent phases')
     # an interface with reactions, lateral interactions and BEP relations: the CTI entry names every reaction and
     # interaction id and every BEP relation once; the YAML entry declares them (and 'none' when there are none)
     ci = repo.cls('pmutt.omkm.phase.InteractingInterface')
